@@ -1,5 +1,6 @@
 //! flute-verif: property-based / fuzz harness deciding the properties in /verif/properties.jsonl
 pub mod alloc;
+pub mod chan;
 pub mod corpus;
 pub mod drive;
 pub mod engine;
